@@ -9,7 +9,7 @@ LEVEL = "exploration"
 RULE = (
     "all ordered pairs of a grammar-generated version universe (first component, later components with/without "
     "leading zeros, letter, stacked suffixes with/without numbers, revisions incl. r0/r00/r01, 20-digit runs) compared "
-    "through cpv.ver_cmp, VersionedCPV operators, atom comparison and VersionMatch for every operator against a "
+    "through cpv.ver_cmp (revisions passed as Revision objects, as plain str, mixed, and '' for none), VersionedCPV operators, atom comparison and VersionMatch for every operator against a "
     "transcription of PMS Algorithms 3.1-3.7; all triples of a sub-universe for transitivity. A class is "
     "(deciding PMS step, leading-zero involvement, sign); distinct_nontrivial counts classes observed."
 )
@@ -169,6 +169,14 @@ def check_pair(fa, fb):
     back = cpvmod.ver_cmp(B.version, B.revision, A.version, A.revision)
     if back != -got:
         msgs.append(f"antisymmetry: ver_cmp({fa},{fb})={got} but ver_cmp({fb},{fa})={back}")
+    # ver_cmp's documented signature takes plain-str revisions (None/"" = no revision): same verdict required,
+    # also with one side a Revision object and the other a plain str
+    sra, srb = (A.revision.data or None), (B.revision.data or None)
+    for la, ra, rb in (("str,str", sra, srb), ("str,Revision", sra, B.revision), ("Revision,str", A.revision, srb),
+                       ("''-for-none", sra or "", srb or "")):
+        g = cpvmod.ver_cmp(A.version, ra, B.version, rb)
+        if g != exp:
+            msgs.append(f"ver_cmp({fa},{fb}) with revisions passed as {la} = {g} PMS={exp}")
     ops = {"<": exp < 0, "<=": exp <= 0, "=": exp == 0, ">=": exp >= 0, ">": exp > 0}
     obs = {"<": A < B, "<=": A <= B, "=": A == B, ">=": A >= B, ">": A > B}
     if obs != ops:
